@@ -41,6 +41,22 @@ class BiasGeluFusion(pattern.RewriteRuleClassBase):
         if not _ir_utils.has_rank(bias, 1):
             return check_result.fail("bias is not of shape 1D tensor", bias)
 
+        # BiasGelu requires the bias length to equal the last dimension of the input
+        # (Add would also broadcast a last dimension of 1 on either side).
+        if input.shape is None or input.shape.rank() == 0:
+            return check_result.fail("input rank is unknown or zero", input)
+        input_last, bias_len = input.shape[-1], bias.shape[0]
+        if isinstance(input_last, int) and isinstance(bias_len, int):
+            if input_last != bias_len:
+                return check_result.fail("bias length differs from the last dimension of input", bias)
+        elif (
+            isinstance(input_last, int)
+            or isinstance(bias_len, int)
+            or input_last.value is None
+            or input_last.value != bias_len.value
+        ):
+            return check_result.fail("bias length cannot be shown to equal the last dimension of input", bias)
+
         return check_result
 
     def rewrite(self, op, input, bias, **_):
